@@ -394,6 +394,8 @@ static string fcmpExpr(CmpInst::Predicate p, const string& a, const string& b)
 }
 
 static std::map<const BasicBlock*, string> bbName;
+static const string& dem(const Function& F);
+extern std::vector<string> cutIndirectPats;
 
 static void emitPhiCopies(const BasicBlock* from, const BasicBlock* to, FnCtx& C, std::ostringstream& os)
 {
@@ -525,6 +527,45 @@ static void emitFunction(const Function& F, raw_ostream& out)
          if(isa<PHINode>(I)) C.decls << "  " << declare(I.getType(), n + "_t") << ";\n";
       }
    std::ostringstream& os = C.body;
+   std::set<const Instruction*> skip, stubCalls;
+   {
+      bool ci = false;
+      const string& dn = dem(F);
+      for(auto& p : cutIndirectPats) if(p == "*" || dn.find(p) != string::npos) ci = true;
+      if(ci)
+      {
+         std::vector<const Instruction*> work;
+         for(const BasicBlock& B : F) for(const Instruction& I : B)
+            if(auto* CB = dyn_cast<CallBase>(&I))
+               if(!CB->getCalledFunction() && !isa<Function>(CB->getCalledOperand()->stripPointerCasts()))
+               {
+                  stubCalls.insert(&I);
+                  if(auto* OI = dyn_cast<Instruction>(CB->getCalledOperand())) work.push_back(OI);
+               }
+         while(!work.empty())
+         {
+            const Instruction* I = work.back(); work.pop_back();
+            if(skip.count(I) || isa<PHINode>(I) || isa<CallBase>(I) || I->mayHaveSideEffects()) continue;
+            bool all = true;
+            for(const User* U : I->users())
+            {
+               auto* UI = dyn_cast<Instruction>(U);
+               if(!UI) { all = false; break; }
+               if(skip.count(UI)) continue;
+               if(stubCalls.count(UI) && cast<CallBase>(UI)->getCalledOperand() == I)
+               {
+                  bool asArg = false;
+                  for(auto& A : cast<CallBase>(UI)->args()) if(A.get() == I) asArg = true;
+                  if(!asArg) continue;
+               }
+               all = false; break;
+            }
+            if(!all) continue;
+            skip.insert(I);
+            for(auto& O : I->operands()) if(auto* OI = dyn_cast<Instruction>(O.get())) work.push_back(OI);
+         }
+      }
+   }
    for(const BasicBlock& B : F)
    {
       os << " " << bbName[&B] << ": ;\n";
@@ -533,6 +574,15 @@ static void emitFunction(const Function& F, raw_ostream& out)
          string n = I.getType()->isVoidTy() ? "" : C.name[&I];
          auto op = [&](unsigned i) { return val(I.getOperand(i), &C); };
          Type* T = I.getType();
+         if(skip.count(&I)) continue;
+         if(stubCalls.count(&I))
+         {
+            // indirect call in a cutindirect function: arbitrary result, no side effect
+            if(!T->isVoidTy()) os << "  { " << cty(T) << " nd_; " << n << " = nd_; } /* indirect call cut */\n";
+            else os << "  /* indirect call cut */ ;\n";
+            if(auto* II = dyn_cast<InvokeInst>(&I)) { os << "  { "; emitPhiCopies(&B, II->getNormalDest(), C, os); os << "goto " << bbName[II->getNormalDest()] << "; }\n"; }
+            continue;
+         }
          switch(I.getOpcode())
          {
          case Instruction::Alloca: break;
@@ -739,12 +789,16 @@ static const string& dem(const Function& F)
    return demCache[&F] = llvm::demangle(F.getName().str());
 }
 static bool isHarnessName(StringRef n) { return n.startswith("h_") || n.startswith("m_") || n.startswith("vpx_"); }
+std::vector<string> cutIndirectPats;   // functions in which indirect (virtual) calls become nondet stubs
+static std::set<string> ownNames;   // functions defined by the harness TU itself (never cut by "*")
 static bool isCut(const Function& F)
 {
    if(isHarnessName(F.getName())) return false;
    const string& n = dem(F);
    for(auto& k : keepPats) if(n.find(k) != string::npos) return false;
-   for(auto& c : cutPats) if(c == "*" || n.find(c) != string::npos) return true;
+   for(auto& c : cutPats) if(c != "*" && n.find(c) != string::npos) return true;
+   if(ownNames.count(F.getName().str())) return false;
+   for(auto& c : cutPats) if(c == "*") return true;
    return false;
 }
 static void collectFns(const Value* V, std::set<const Function*>& out, std::set<const Value*>& seen)
@@ -772,6 +826,8 @@ int main(int argc, char** argv)
          if(kw == "cut") cutPats.push_back(rest);
          else if(kw == "keep") keepPats.push_back(rest);
          else if(kw == "entry") entryNames.push_back(rest);
+         else if(kw == "own") ownNames.insert(rest);
+         else if(kw == "cutindirect") cutIndirectPats.push_back(rest);
          else if(kw == "replace")
          {
             size_t p = rest.rfind(" => ");
